@@ -1,6 +1,7 @@
 import AquaVerif.Proofs.CatalogueCfg
 import AquaVerif.Proofs.CropCalendar
 import AquaVerif.Proofs.PrepareGdd
+import AquaVerif.Proofs.PrepareGddOrder
 import AquaVerif.Proofs.RunClosedRw
 import AquaVerif.Proofs.CropFull
 import AquaVerif.Proofs.Run
@@ -347,6 +348,51 @@ theorem converted_calendar_ordered {F : Fn α} {toInt : α → Int} {c : CalCDIn
     r.cal.emergence ≤ r.cal.senescence ∧ r.cal.senescence ≤ r.cal.maturity :=
   let o := calendarInitCDSwitch_mean_order htb hn h
   ⟨o.2.2.1 h0 h1, o.2.2.2.1 (le_trans h0 h1) h2⟩
+
+/-- … the same for ANY number of seasons in the window (numpy's pairwise / eight-lane summation
+equals the plain sum over a field: `npSum_eq_sum`), summary `'mean'`. -/
+theorem converted_calendar_ordered_any_seasons {F : Fn α} {toInt : α → Int} {c : CalCDIn α} {m : Nat}
+    {tbase tupp oldYF oldFD : α} {hasCol : Bool} {rows : List (Option Nat × α × α)}
+    {r : CalSwitchOut α} (htb : tbase ≤ tupp)
+    (h : calendarInitCDSwitch F toInt c m tbase tupp hasCol 0 oldYF oldFD rows = .ok r)
+    (h0 : 0 ≤ toInt c.emergenceCD) (h1 : toInt c.emergenceCD ≤ toInt c.senescenceCD)
+    (h2 : toInt c.senescenceCD ≤ toInt c.maturityCD) :
+    r.cal.emergence ≤ r.cal.senescence ∧ r.cal.senescence ≤ r.cal.maturity :=
+  let o := calendarInitCDSwitch_mean_order' htb h
+  ⟨o.2.2.1 h0 h1, o.2.2.2.1 (le_trans h0 h1) h2⟩
+
+/-- … and for summary `'median'` (sorting keeps pointwise order, `sortAsc_forall₂`, so `np.median`
+is monotone, `gddNpMedian_mono`), any number of seasons. -/
+theorem converted_calendar_ordered_median {F : Fn α} {toInt : α → Int} {c : CalCDIn α} {m : Nat}
+    {tbase tupp oldYF oldFD : α} {hasCol : Bool} {rows : List (Option Nat × α × α)}
+    {r : CalSwitchOut α} (htb : tbase ≤ tupp)
+    (h : calendarInitCDSwitch F toInt c m tbase tupp hasCol 1 oldYF oldFD rows = .ok r)
+    (h0 : 0 ≤ toInt c.emergenceCD) (h1 : toInt c.emergenceCD ≤ toInt c.senescenceCD)
+    (h2 : toInt c.senescenceCD ≤ toInt c.maturityCD) :
+    r.cal.emergence ≤ r.cal.senescence ∧ r.cal.senescence ≤ r.cal.maturity :=
+  let o := calendarInitCDSwitch_median_order htb h
+  ⟨o.2.2.1 h0 h1, o.2.2.2.1 (le_trans h0 h1) h2⟩
+
+/-- the six order relations of the converted calendar (emergence ≤ max canopy ≤ senescence ≤ maturity,
+start ≤ end of yield formation ≤ maturity), each under the order of the calendar-day positions it was
+read at, for mean and median alike and any number of seasons -/
+theorem converted_calendar_order_relations {F : Fn α} {toInt : α → Int} {c : CalCDIn α} {m : Nat}
+    {tbase tupp oldYF oldFD : α} {hasCol : Bool} {sumFun : Nat} {rows : List (Option Nat × α × α)}
+    {r : CalSwitchOut α} (hsf : sumFun = 0 ∨ sumFun = 1) (htb : tbase ≤ tupp)
+    (h : calendarInitCDSwitch F toInt c m tbase tupp hasCol sumFun oldYF oldFD rows = .ok r) :
+    (0 ≤ toInt c.emergenceCD → toInt c.emergenceCD ≤ toInt r.cal.maxCanopyCD →
+      r.cal.emergence ≤ r.cal.maxCanopy) ∧
+    (0 ≤ toInt r.cal.maxCanopyCD → toInt r.cal.maxCanopyCD ≤ toInt c.senescenceCD →
+      r.cal.maxCanopy ≤ r.cal.senescence) ∧
+    (0 ≤ toInt c.emergenceCD → toInt c.emergenceCD ≤ toInt c.senescenceCD →
+      r.cal.emergence ≤ r.cal.senescence) ∧
+    (0 ≤ toInt c.senescenceCD → toInt c.senescenceCD ≤ toInt c.maturityCD →
+      r.cal.senescence ≤ r.cal.maturity) ∧
+    (0 ≤ toInt c.hiStartCD → toInt c.hiStartCD ≤ toInt r.cal.hiEndCD →
+      r.cal.hiStart ≤ r.cal.hiEnd) ∧
+    (0 ≤ toInt r.cal.hiEndCD → toInt r.cal.hiEndCD ≤ toInt c.maturityCD →
+      r.cal.hiEnd ≤ r.cal.maturity) :=
+  calendarInitCDSwitch_order' hsf htb h
 
 /-- … with a single season in the window the converted threshold of every stage IS the cumulative
 growing degrees at its calendar-day position (mean and median alike). -/
